@@ -336,6 +336,24 @@ fn exhaustive_cases(tier: Tier) -> Vec<TlvCase> {
             out.push(TlvCase::Tu64(Hx(v)));
         }
     }
+    // records that *declare* a huge length (every varint width) but carry only a few bytes: must be an error,
+    // never an attempt to allocate that much
+    for len in [0xfdu64, 0xffff, 0x10000, 0x7fff_ffff, 0xffff_ffff, 0x1_0000_0000, 1 << 40, 1 << 62, i64::MAX as u64, i64::MAX as u64 + 1, u64::MAX - 1, u64::MAX] {
+        for tail in [0usize, 3] {
+            let mut b = vec![0x01];
+            put_bigsize(&mut b, len);
+            b.extend(std::iter::repeat(0x55).take(tail));
+            out.push(TlvCase::Bytes(Hx(b.clone())));
+            // behind a valid record, and as a length-prefixed payload
+            let mut c = vec![0x00, 0x01, 0xaa];
+            c.extend(&b);
+            out.push(TlvCase::Bytes(Hx(c.clone())));
+            let mut p = vec![];
+            put_bigsize(&mut p, c.len() as u64);
+            p.extend(&c);
+            out.push(TlvCase::Bytes(Hx(p)));
+        }
+    }
     // varint width boundaries, as type and as length
     for v in [0xfcu64, 0xfd, 0xfe, 0xff, 0x100, 0xffff, 0x10000, 0xffff_ffff, 0x1_0000_0000, u64::MAX] {
         out.push(TlvCase::Valid(hx(vec![(v, vec![1, 2, 3])])));
